@@ -21,3 +21,10 @@ PROPS["C03"] = dict(
     generators=[dict(name="C03", quick=1500, thorough=100000)],
     harness=["impl"],
 )
+
+PROPS["C04"] = dict(
+    modules=["Proofs.C04"],
+    theorems=[],
+    generators=[dict(name="C04", quick=2000, thorough=150000)],
+    harness=["impl"],
+)
